@@ -27,6 +27,15 @@ Theorem C09_topo_general :
 Proof. intros rr M H. split; [exact (topo_perm rr M H) | exact (topo_topo_ok rr M)]. Qed.
 Print Assumptions C09_topo_general.
 
+(* the ordering step leaves a list that is already in reference order alone, so the second resolution
+   done by Backend.convert keeps the order the collection got when it was loaded *)
+Theorem C09_order_stable :
+  (forall rr M, NoDup M -> topo_ok rr M -> topo rr M = M) /\
+  (forall Q rplain rcorr ds c rr, pipeline Q rplain rcorr ds = Ok c -> resolve_all ds = Some rr ->
+     c_order_conv c = c_order_load c).
+Proof. split; [exact topo_fixpoint | exact order_conv_eq_load]. Qed.
+Print Assumptions C09_order_stable.
+
 (* an acyclic rule set whose references all resolve is converted completely, in every case *)
 Theorem C09_conversion_total :
   forall Q rplain rcorr ds rr, resolve_all ds = Some rr -> acyclic rr ->
